@@ -354,7 +354,7 @@ func imgA0(img bufimage.Image) bufimage.Image { return img }
 func TestPathsAPI(t *testing.T) {
 	r := evid.R()
 	ctx := context.Background()
-	r.Check(t, r.Scale(800, 30000), 4, func(t *rapid.T) {
+	r.Check(t, r.Scale(800, 20000), 4, func(t *rapid.T) {
 		src, _ := genSrc(t, r.Thorough())
 		c := &PathCase{Kind: "paths-api", Src: src}
 		c.Paths, c.Exclude = genPathSets(t, src)
@@ -486,7 +486,7 @@ func runPathsCLI(ctx context.Context, t fataler, r *evid.Recorder, c *PathCase) 
 func TestPathsCLI(t *testing.T) {
 	r := evid.R()
 	ctx := context.Background()
-	r.Check(t, r.Scale(48, 2000), 5, func(t *rapid.T) {
+	r.Check(t, r.Scale(48, 1400), 5, func(t *rapid.T) {
 		src, _ := genSrc(t, false)
 		c := &PathCase{Kind: "paths-cli", Src: src}
 		c.Paths, c.Exclude = genPathSets(t, src)
